@@ -65,7 +65,7 @@ Lemma sections_triggered_table s :
 Proof.
   assert (E : trig_table = map (fun st => (section_flags (fst st), snd st)) section_triggers)
     by (vm_compute; reflexivity).
-  unfold sections_triggered. rewrite E, forallb_map. reflexivity.
+  unfold sections_triggered. rewrite E, forallb_map. cbn beta iota delta [fst snd]. reflexivity.
 Qed.
 
 Section Agree.
@@ -100,19 +100,25 @@ Section Agree.
   Qed.
 
   (* a section of the YAML file is there iff one of its flags is among the settings *)
+  Definition no_flag (k : string) : bool := match find_flag k cli_flags with Some _ => false | None => true end.
+
   Lemma present_section (yks fls : list string) :
-    forallb (fun yk => mem_str (settings_key yk) fls) yks = true ->
+    forallb (fun yk => mem_str (settings_key yk) fls || no_flag (settings_key yk)) yks = true ->
     yaml_present y yks = true -> existsb (present s) fls = true.
   Proof.
     intros T P. unfold yaml_present in P. apply existsb_exists in P as [yk [Hin P]].
-    rewrite forallb_forall in T. specialize (T _ Hin). unfold mem_str in T.
-    apply existsb_exists in T as [f [Hf E]]. apply String.eqb_eq in E. subst f.
-    apply existsb_exists. exists (settings_key yk). split; [exact Hf|].
-    unfold present. unfold y, yaml_data_of, G in P. destruct (lookup (settings_key yk) s); [reflexivity|discriminate].
+    rewrite forallb_forall in T. specialize (T _ Hin).
+    unfold y, yaml_data_of in P. destruct (G (settings_key yk)) as [v|] eqn:E; [|discriminate].
+    apply orb_true_iff in T as [T|T].
+    - unfold mem_str in T. apply existsb_exists in T as [f [Hf Ef]]. apply String.eqb_eq in Ef. subst f.
+      apply existsb_exists. exists (settings_key yk). split; [exact Hf|].
+      unfold present. unfold G in E. rewrite E. reflexivity.
+    - apply G_typed in E. unfold flag_accepts in E. unfold no_flag in T.
+      destruct (find_flag (settings_key yk) cli_flags); discriminate.
   Qed.
 
   Lemma section_present (yks fls : list string) (trig ytrig : string) :
-    forallb (fun yk => mem_str (settings_key yk) fls) yks = true ->
+    forallb (fun yk => mem_str (settings_key yk) fls || no_flag (settings_key yk)) yks = true ->
     (existsb (present s) fls = true -> str_given s trig = true) ->
     settings_key ytrig = trig -> In ytrig yks ->
     yaml_present y yks = str_given s trig.
@@ -159,7 +165,9 @@ Section Agree.
     match goal with
     | |- context [yaml_present y (?h :: ?t)] =>
       rewrite (section_present (h :: t) fls trig ytrig)
-        by first [ vm_compute; reflexivity | apply trig_imp; simpl; tauto | simpl; tauto ]
+        by first [ vm_compute; reflexivity
+                 | apply trig_imp; unfold trig_table; simpl; repeat (first [left; reflexivity | right])
+                 | simpl; repeat (first [left; reflexivity | right]) ]
     end.
 
   Lemma main : eff (from_flags X s) = eff (from_yaml X s).
@@ -173,8 +181,9 @@ Section Agree.
     change (strconv_Itoa X) with itoa.
     change (sort_Float64s X) with sort_Z.
     rewrite config_file_empty. cbn [String.eqb negb].
-    trig "http_proxy.url"; trig "grpc_proxy.url"; trig "gcs_proxy.bucket"; trig "ldap.url"; trig "s3.bucket"; trig "azblob.tenant_id".
     rewrite cache_time_zero.
+    unfold ctx, y, G.
+    trig "http_proxy.url"; trig "grpc_proxy.url"; trig "gcs_proxy.bucket"; trig "ldap.url"; trig "s3.bucket"; trig "azblob.tenant_id".
     rS "dir" "dir" ""; rI "max_size" "max_size" 0; rI "max_size_hard_limit" "max_size_hard_limit" (-1); rS
     "storage_mode" "storage_mode" "zstd"; rS "zstd_implementation" "zstd_implementation" "go"; rS
     "http_address" "http_address" ""; rS "host" "host" ""; rI "port" "port" 8080; rS "grpc_address"
@@ -215,5 +224,18 @@ Section Agree.
     "enable_endpoint_metrics" false; rB "http_metrics_prefix" "http_metrics_prefix" false; rB
     "experimental_remote_asset_api" "experimental_remote_asset_api" false; rS "access_log_level"
     "access_log_level" "all"; rS "log_timezone" "log_timezone" "UTC".
+    fold G. fold y.
+    unfold yaml_Unmarshal_by_tags. rewrite yaml_types. cbn [negb].
+    sec "http_proxy.url" "http_proxy.url". sec "grpc_proxy.url" "grpc_proxy.url".
+    sec "ldap.url" "ldap.url". sec "s3_proxy.bucket" "s3.bucket". sec "azblob_proxy.tenant_id" "azblob.tenant_id".
+    sec "gcs_proxy.bucket" "gcs_proxy.bucket".
+    destruct (str_given s "http_proxy.url") eqn:Th;
+      [destruct (up (yS y "http_proxy.url" "")) as [uh|] eqn:Uh|];
+      (destruct (str_given s "grpc_proxy.url") eqn:Tg;
+       [destruct (up (yS y "grpc_proxy.url" "")) as [ug|] eqn:Ug|]).
+    all: try match goal with |- context [match Some ?yc with Some _ => _ | None => _ end] => set (YC := yc) end.
+    all: cbv beta iota delta [bind].
+    all: try lazymatch goal with |- eff (Err _) = eff (Err _) => reflexivity end.
+    all: unfold newFromArgs.
   Abort.
 End Agree.
